@@ -205,6 +205,44 @@ size at the starting level.  The hypothesis `2 ≤ nvars` is necessary:
 theorem sift_never_asserts : sift_never_asserts_statement :=
   fun ext m h h2 => OkOrSched.mono (fun _ _ _ => trivial) (C07_sift ext m h h2)
 
+/-! ### with no recorded schedule (the model iterates in ascending order) every call is total -/
+
+/-- C07 (sifting, default schedule): returns normally -/
+theorem C07_sift_total (ext : Nat → Nat) (m : Mgr) (h : ReorderInv ext m) (h2 : 2 ≤ m.nvars)
+    (hs : m.sched = []) :
+    ∃ m', reorder none m = (.ok (), m') ∧ ReorderInv ext m' ∧ NoGarbage m' ∧ m'.sched = [] ∧
+      ReorderRel ext m m' := by
+  obtain ⟨m', a, b, c, d⟩ := applySifting_total_default ext m h h2 hs
+  exact ⟨m', a, b.1, b.2, c, d⟩
+
+/-- C07 (`_shift`, default schedule) -/
+theorem C07_shift_total (ext : Nat → Nat) (m : Mgr) (h : ReorderInv ext m) (hs0 : m.sched = [])
+    (s e : Nat) (hs : s < m.nvars) (he : e < m.nvars) :
+    ∃ r m', shift s e m = (.ok r, m') ∧ ReorderInv ext m' ∧ m'.sched = [] ∧ ReorderRel ext m m' ∧
+      ∀ j, m'.tbl.l2v[j]? = m.tbl.l2v[shiftPerm s e j]? := by
+  obtain ⟨r, m', hrun, hp⟩ := (shift_order (swapOK0 ext) m ⟨h, hs0⟩ s e hs he).total
+  exact ⟨r, m', hrun, hp.1.1, hp.1.2, hp.2.1, hp.2.2.2.2⟩
+
+/-- C07 (`reorder(bdd, order)`, default schedule) -/
+theorem C07_reorder_order_total (ext : Nat → Nat) (m : Mgr) (h : ReorderInv ext m)
+    (hs0 : m.sched = []) (order : List (String × Int)) (ho : ReqOrder order m) :
+    ∃ m', reorder (some order) m = (.ok (), m') ∧ ReorderInv ext m' ∧ m'.sched = [] ∧
+      ReorderRel ext m m' ∧
+      ∀ v p, order.lookup v = some p → m.tbl.vars.contains v = true →
+        m'.tbl.vars[v]? = some p.toNat ∧ m'.tbl.l2v[p.toNat]? = some v := by
+  obtain ⟨_, m', hrun, hp⟩ := (sortToOrder_exact (swapOK0 ext) order m ⟨h, hs0⟩ ho).total
+  exact ⟨m', hrun, hp.1.1, hp.1.2, hp.2.1, hp.2.2.2⟩
+
+/-- C07 (`reorder_to_pairs`, default schedule) -/
+theorem C07_reorderToPairs_total (ext : Nat → Nat) (m : Mgr) (h : ReorderInv ext m)
+    (hs0 : m.sched = []) (pairs : List (String × String))
+    (hdecl : ∀ v ∈ pairNames pairs, m.tbl.vars.contains v = true) (hnd : (pairNames pairs).Nodup) :
+    ∃ m', reorderToPairs pairs m = (.ok (), m') ∧ ReorderInv ext m' ∧ m'.sched = [] ∧
+      ReorderRel ext m m' ∧ ∀ p ∈ pairs, Adj m' p.1 p.2 := by
+  obtain ⟨_, m', hrun, hp⟩ :=
+    (reorderToPairs_adjacent (swapOK0 ext) pairs m ⟨h, hs0⟩ hdecl hnd).total
+  exact ⟨m', hrun, hp.1.1, hp.1.2, hp.2.1, hp.2.2.2.1⟩
+
 /-- the exception raised, if any -/
 def errOf {α} : Except Err α → Option Err
   | .error e => some e
